@@ -28,7 +28,7 @@ class FileStub(I.Opaque):
         self.path, self.mode = path, mode
 
 
-def run_cli(h, run, assemble_outcomes=('ok', 'AssemblerError', 'other')):
+def run_cli(h, run, assemble_outcomes=('ok', 'AssemblerError', 'other'), argc=2):
     eff = run.effects
     dom = run.dom
     binary = I.Opaque('assembled-binary')
@@ -145,6 +145,10 @@ def run_cli(h, run, assemble_outcomes=('ok', 'AssemblerError', 'other')):
         return orig_truth(v)
     it.truth = truth
     run.notes['cli'] = {'binary': binary, 'lab_k': lab_k, 'lab_v': lab_v}
+    # sys.argv: the program name, optionally followed by one arbitrary argument (what argparse yields is modelled separately)
+    sysmod = h.base_it.mods['asm'].vars.get('sys')
+    if sysmod is not None:
+        sysmod.attrs['argv'] = ['bronzebeard'] + [I.Sym('str', z3.Int('argv%d' % k)) for k in range(1, argc)]
     return it.call(h.env.vars['cli_main'], [], {})
 
 
@@ -169,7 +173,7 @@ def obligations_cli(ctx, h):
     ctx.under_contract('cli_main')
     ctx.assume('assemble is replaced by its contract: returns the binary and fills labels/constants, or raises AssemblerError, or lets another exception escape')
     ctx.assume('I/O errors of the writes themselves (disk full, permission) are faults of the environment, outside the property')
-    paths = I.explore(lambda run: run_cli(h, run), I.IntDom)
+    paths = I.explore(lambda run: run_cli(h, run, argc=2), I.IntDom) + I.explore(lambda run: run_cli(h, run, argc=1), I.IntDom)
     fn = 'asm.cli_main'
     n_ok = 0
     for i, p in enumerate(paths):
